@@ -502,7 +502,7 @@ func (st *Runtime) executeList(list *ListNode) (returnValue reflect.Value) {
 
 			indexValue, rangeValue, end := ranger.Range()
 			if !end {
-				for !end && !returnValue.IsValid() && !ret.IsValid() {
+				for !end && !ret.IsValid() {
 					if isSet {
 						if isLet {
 							if keyVarSlot >= 0 {
